@@ -726,4 +726,53 @@ theorem good_run : ∀ (ops : List HOp) {h : HSt}, Good h → TrigFree h ops →
     simp only [List.foldl_cons]
     exact good_run ops (good_step hg op ht.1 ht.2.1) ht.2.2
 
+/-! ### the tracking invariant holds along every history (no trigger condition needed) -/
+
+/-- no id is started while an operation with that id is active -/
+def FreshStarts (h : HSt) : List HOp → Prop
+  | [] => True
+  | op :: ops => freshOk h op = true ∧ FreshStarts (hstep h op) ops
+
+theorem kinv_step {h : HSt} (hk : ∀ op, Kinv h.sys op) (op : HOp) (hf : freshOk h op = true) :
+    ∀ op', Kinv (hstep h op).sys op' := by
+  intro op'
+  cases op with
+  | start o p =>
+    have hfr : h.sys.ctx? o = none := by simpa [freshOk] using hf
+    exact kinv_start_fresh hfr hk p op'
+  | finish o =>
+    simp only [hstep]
+    cases hc : h.sys.ctx? o with
+    | none => exact hk op'
+    | some c =>
+      have := kinv_abortById (hk op') o
+      unfold abortById at this
+      rw [hc] at this
+      exact this
+  | rel o r =>
+    simp only [hstep]
+    cases hc : h.sys.ctx? o with
+    | none => exact hk op'
+    | some c => exact kinv_release_all (ctx?_some hc).1 hk r op'
+  | acq o r =>
+    simp only [hstep]
+    cases hc : h.sys.ctx? o with
+    | none => exact hk op'
+    | some c =>
+      simp only
+      have := kinv_acquire_all (ctx?_some hc).1 hk r op'
+      generalize acquire h.sys c r = q at this
+      obtain ⟨s', c', res⟩ := q
+      cases res with
+      | none => exact this
+      | some lr => cases lr <;> exact this
+
+theorem kinv_run : ∀ (ops : List HOp) {h : HSt}, (∀ op, Kinv h.sys op) → FreshStarts h ops →
+    ∀ op, Kinv (hrun h ops).sys op
+  | [], _, hk, _ => hk
+  | op :: ops, h, hk, hf => by
+    unfold hrun
+    simp only [List.foldl_cons]
+    exact kinv_run ops (kinv_step hk op hf.1) hf.2
+
 end Operon.Coord
